@@ -1,4 +1,6 @@
 import SqlObjVerif.Lemmas.Uri
+import SqlObjVerif.Lemmas.UriXBuild
+import SqlObjVerif.Lemmas.UriXChain
 /-!
 # C18 — connection URIs round-trip: parse(build(x)) = x, the same database is opened
 
@@ -179,5 +181,130 @@ example : parseURI [109,58,47,47,104,58,54,53,53,51,54,47] = .valueError := by d
 example : parseURI [109,58,47,47,104,58,56,111,47] = .valueError := by decide            -- m://h:8o/
 example : parseURI [109,58,47,47,104,58,54,53,53,51,53,47] =
     .ok ⟨none, none, some [104], some 65535, [47], []⟩ := by decide
+
+/-! ## the TRANSLATED source
+
+`UriX.parseURIX`, `genericUriX`, `sqliteUriX`, `sqliteOpenX`, `connectionFromURIX`, `connectionForURIX` run the PyUri
+programs that `vlib/extractors/pyuri.py` translated from /repo's `DBConnection._parseURI / uri / connectionFromURI`,
+`SQLiteConnection.uri / _connectionFromParams` and `ConnectionURIOpener.connectionForURI` on this very run, under the
+reference semantics of `Model/PyUri.lean`.  The interface `UriX.uriIface osName cm cv` instantiates the imported
+standard-library functions (`urlparse` and the properties of its result, `quote`, `unquote`, `parse_qsl`,
+`urlencode`, `'%d' % i`) by the hand model's functions of the same name — they are SPECIFICATION, cross-checked
+against CPython by the harness streams —; `os.name` is `osName`; method calls on objects (`cm`) and the constructor
+call `cls(filename=…, **args)` (`cv`) are arbitrary.  The theorems hold for ALL inputs, so every theorem above is a
+statement about the translated source. -/
+
+section translated
+open SqlObjVerif.UriX
+variable (osName : List Nat) (cm : PyUri.Val → String → List PyUri.Val → PyUri.R PyUri.Val)
+  (cv : PyUri.Val → List PyUri.Val → List (List Nat × PyUri.Val) → PyUri.R PyUri.Val)
+
+/-- `DBConnection._parseURI` as translated computes the hand model's `parseURI` (same 6-tuple, same ValueError) for
+    every string, on every platform whose `os.name` is not `'nt'`: the Windows branch is dead. -/
+theorem C18_translated_parseURI_eq_model (uri : Str) (hos : osName ≠ [110, 116]) :
+    parseURIX (uriIface osName cm cv) uri = ofParseOut (parseURI uri) :=
+  parseURI_translated osName cm cv uri hos
+
+/-- `DBConnection.uri` as translated computes the hand model's `genericUri` (same text, same AssertionError /
+    UnicodeEncodeError) for every connection description. -/
+theorem C18_translated_uri_eq_model (c : Conn) :
+    genericUriX (uriIface osName cm cv) c = ofBuildOut (genericUri c) :=
+  uri_translated osName cm cv c
+
+/-- `SQLiteConnection.uri` as translated computes the hand model's `sqliteUri` for every file name. -/
+theorem C18_translated_sqlite_uri_eq_model (fn : Str) :
+    sqliteUriX (uriIface osName cm cv) fn = ofBuildOut (sqliteUri fn) :=
+  sqliteUri_translated osName cm cv fn
+
+/-- `SQLiteConnection._connectionFromParams` as translated: AssertionError exactly when the hand model's `sqliteOpen`
+    refuses, otherwise the constructor call `cls(filename=<sqliteOpen p>, **args)`. -/
+theorem C18_translated_connectionFromParams_eq_model (cls : PyUri.Val) (p : Parsed) :
+    sqliteOpenX (uriIface osName cm cv) cls p = sqliteOpenSpec (uriIface osName cm cv) cls p :=
+  sqliteOpen_translated osName cm cv cls p
+
+/-- `ConnectionURIOpener.connectionForURI(uri, **ps)` as translated (called with a false `oldUri`, so that
+    `connectionFromOldURI` / `_parseOldURI` are not reached) is the hand model `UriX.connectionForURI`: the URI is
+    extended by `withParams`, looked up in `cachedURIs`, dispatched on the text before the first `:`, and the new
+    connection is cached under the extended URI — same outcome and same opener afterwards, for every opener state. -/
+theorem C18_translated_connectionForURI_eq_model (o : Opener) (uri : Str) (oldUri : PyUri.Val)
+    (ps : List (Str × Str)) (hold : PyUri.truthy oldUri = false) :
+    connectionForURIX (uriIface osName cm cv) o uri oldUri ps =
+      UriX.connectionForURI (uriIface osName cm cv) o uri ps :=
+  connectionForURI_translated osName cm cv o uri oldUri ps hold
+
+/-- `DBConnection.connectionFromURI` as translated is `cls._connectionFromParams(*cls._parseURI(uri))`. -/
+theorem C18_translated_connectionFromURI (cls : PyUri.Val) (uri : Str) :
+    connectionFromURIX (uriIface osName cm cv) cls uri =
+      ofR ((PyUri.methodOf (uriIface osName cm cv) cls "_parseURI" [.str uri]).bind fun t =>
+        match t with
+        | .tuple as => PyUri.methodOf (uriIface osName cm cv) cls "_connectionFromParams" as
+        | .list as => PyUri.methodOf (uriIface osName cm cv) cls "_connectionFromParams" as
+        | _ => .stuck) :=
+  connectionFromURI_translated osName cm cv cls uri
+
+/-- `C18_parse_build` about the translated source: running the translated `uri()` on a well-formed connection
+    returns a string, and running the translated `_parseURI` on that string returns exactly the components. -/
+theorem C18_translated_parse_build (c : Conn) (wf : WfConn c) (hos : osName ≠ [110, 116]) :
+    ∃ u, genericUriX (uriIface osName cm cv) c = .ret (.str u) ∧
+      parseURIX (uriIface osName cm cv) u = .ret (parsedTuple ⟨truthyS c.user, truthyS c.password, truthyS c.host,
+        (truthyI c.port).map Int.toNat, 47 :: dbOf c, []⟩) := by
+  obtain ⟨u, hu, hp⟩ := C18_parse_build c wf
+  exact ⟨u, by rw [C18_translated_uri_eq_model, hu]; rfl,
+    by rw [C18_translated_parseURI_eq_model osName cm cv u hos, hp]; rfl⟩
+
+/-- `C18_sqlite_parse_build` about the translated source. -/
+theorem C18_translated_sqlite_parse_build (fn : Str) (hv : validStr fn = true)
+    (hd : fn = memoryName ∨ startsWith [47] fn = true) (hos : osName ≠ [110, 116]) :
+    ∃ u, sqliteUriX (uriIface osName cm cv) fn = .ret (.str u) ∧
+      parseURIX (uriIface osName cm cv) u =
+        .ret (parsedTuple ⟨none, none, none, none, if fn = memoryName then slashMemory else fn, []⟩) := by
+  obtain ⟨u, hu, hp⟩ := C18_sqlite_parse_build fn hv hd
+  exact ⟨u, by rw [C18_translated_sqlite_uri_eq_model, hu]; rfl,
+    by rw [C18_translated_parseURI_eq_model osName cm cv u hos, hp]; rfl⟩
+
+/-- `C18_parse_build_params` about the translated source: the reported URI, extended the way the translated
+    `connectionForURI` extends it, parses back (translated `_parseURI`) to the components and exactly the parameters. -/
+theorem C18_translated_parse_build_params (c : Conn) (wf : WfConn c) (ps : List (Str × Str)) (ok : ParamsOk ps)
+    (hos : osName ≠ [110, 116]) :
+    ∃ u u', genericUriX (uriIface osName cm cv) c = .ret (.str u) ∧ withParams u ps = some u' ∧
+      parseURIX (uriIface osName cm cv) u' = .ret (parsedTuple ⟨truthyS c.user, truthyS c.password, truthyS c.host,
+        (truthyI c.port).map Int.toNat, 47 :: dbOf c, ps⟩) := by
+  obtain ⟨u, u', hu, hw, hp⟩ := C18_parse_build_params c wf ps ok
+  exact ⟨u, u', by rw [C18_translated_uri_eq_model, hu]; rfl, hw,
+    by rw [C18_translated_parseURI_eq_model osName cm cv u' hos, hp]; rfl⟩
+
+/-- THE SAME DATABASE IS OPENED, end to end on the translated code (`uri` → `connectionForURI` → `connectionFromURI`
+    → `_parseURI` → `_connectionFromParams`, the three class-method calls resolved by running the translations): for
+    every absolute sqlite file name other than `/:memory:` and every list of extra parameters, the URI the
+    connection reports, given to an opener that has not cached it, calls the constructor of the class registered
+    for its scheme with `filename=` exactly that file name and exactly those parameters, and caches the result. -/
+theorem C18_translated_sqlite_same_database (hos : osName ≠ [110, 116]) (reg : List Nat → Option PyUri.Val)
+    (cls : PyUri.Val) (hcls : IsObj cls) (hreg : reg sqliteScheme = some cls)
+    (fn : Str) (hv : validStr fn = true) (hd : startsWith [47] fn = true) (hx : fn ≠ slashMemory)
+    (ps : List (Str × Str)) (ok : ParamsOk ps) (o : Opener) :
+    ∃ u u', sqliteUriX (uriIface osName (sqliteCm2 osName cv reg) cv) fn = .ret (.str u) ∧
+      withParams u ps = some u' ∧
+      (PyUri.aget u' o.cached = none →
+        connectionForURIX (uriIface osName (sqliteCm2 osName cv reg) cv) o u (.bool false) ps =
+          remember o u' (cv cls [] ((filenameKw, .str fn) :: strDict ps))) :=
+  sqlite_roundtrip_opens osName hos cv reg cls hcls hreg fn hv hd hx ps ok o
+
+end translated
+
+-- non-vacuity: the translated programs RUN (kernel evaluation of the interpreter on the extracted terms):
+-- `_parseURI('m://u:p@h:8/d%20b?x=1')`, `SQLiteConnection('/a ').uri()`, and the constructor call of
+-- `_connectionFromParams` (a constructor that returns its keyword arguments)
+example : UriX.parseURIX (UriX.uriIface [112] UriX.noMethods fun _ _ kw => .ok (.dict kw))
+    [109,58,47,47,117,58,112,64,104,58,56,47,100,37,50,48,98,63,120,61,49] =
+    .ret (.tuple [.str [117], .str [112], .str [104], .int 8, .str [47,100,32,98], .dict [([120], .str [49])]]) := rfl
+example : UriX.sqliteUriX (UriX.uriIface [112] UriX.noMethods fun _ _ kw => .ok (.dict kw)) [47, 97, 32] =
+    .ret (.str [115,113,108,105,116,101,58, 47,47,47, 97, 37,50,48]) := rfl
+example : UriX.sqliteOpenX (UriX.uriIface [112] UriX.noMethods fun _ _ kw => .ok (.dict kw)) (.obj "SQLiteConnection" [])
+    ⟨none, none, none, none, [47, 97], [([120], [49])]⟩ =
+    .ret (.dict [(UriX.filenameKw, .str [47, 97]), ([120], .str [49])]) := rfl
+-- the Windows branch is NOT dead on `nt`: `/C|/x` becomes `C:/x`
+example : UriX.parseURIX (UriX.uriIface [110, 116] UriX.noMethods fun _ _ kw => .ok (.dict kw))
+    [109,58,47,47,47,67,124,47,120] =
+    .ret (.tuple [.none, .none, .none, .none, .str [67,58,47,120], .dict []]) := rfl
 
 end SqlObjVerif.Uri
